@@ -45,12 +45,12 @@ PROPS = {
                     "REDUCED: tuple members (define_open!) and BitAnd for arities > 1 (bitset_and!) and the bit-set members (define_bit_join!) are macro-generated and not under contract; the one-member BitAnd and every non-macro member are",
                     "N8: LendJoin's GAT Type<'next> is collapsed to a plain associated type; the `&mut Storage` lending member is therefore checked as free functions with the same clauses",
                     "JoinLendIter::for_each (closure capturing &mut) and the `&mut Storage` non-lending Join member (SharedGetMutOnly raw sharing) are not under contract"]),
-    'C16': dict(units=['changeset'], witness=None,
+    'C16': dict(units=['changeset'], witness='misc',
                 kani=dict(files=['storages_harness.rs'], quick=['dense_step_small'], thorough=['dense_step', 'dense_clean'], timeout=3000),
                 assumptions=STORAGE_ASSUME + ["the inner DenseVecStorage<T> is an opaque implementor of the trait-level storage contract here; its conformance is the bounded Kani part (C04 kinds)",
                                               "`T: AddAssign` is modelled by a spec function add_spec(old, new) (arbitrary, possibly non-commutative); `a += b` is desugared to AddAssign::add_assign(&mut a, b) (N16)",
                                               "FromIterator/Extend loops over a generic IntoIterator are not under contract (they call add once per pair in iteration order); the `&mut ChangeSet` non-lending Join member (SharedGetMutOnly) is not under contract"]),
-    'C15': dict(units=['marker'], witness=None,
+    'C15': dict(units=['marker'], witness='misc',
                 assumptions=["REDUCED to the id-allocation core: SimpleMarkerAllocator::allocate / retrieve_entity_internal / SimpleMarker::id. The load driver (serde), MarkerAllocator::retrieve_entity and mark (they create through the shared entities resource while a WriteStorage borrows it: not expressible under the N3 sequentialisation; mark also uses a closure capturing &mut), maintain (iterator adaptors) and the UUID allocator are outside",
                              "machine arithmetic: an explicit id must be < u64::MAX and fewer than 2^64 marks are counted; for id == u64::MAX `self.index = id + 1` overflows (panic in debug, wrap to 0 in release, after which fresh ids can collide) — recorded in DESIGN.md §7 as an edge-input observation outside the contract",
                              "std::collections::HashMap behaves as vstd's map model for u64 keys (vstd's assumed specification of std)"]),
